@@ -35,6 +35,8 @@ var formulaFns = []string{
 	"(*projCached).Select", "(*affineCached).Select", "(*projCached).CondNeg", "(*affineCached).CondNeg",
 	"(*Point).Add", "(*Point).Subtract", "(*Point).Negate", "(*Point).MultByCofactor", "(*Point).Equal",
 	"(*Point).bytesMontgomery",
+	"isOnCurve", "(*Point).SetExtendedCoordinates", "(*Point).SetBytes",
+	"(*field.Element).Invert", "(*field.Element).Pow22523",
 }
 
 // Go struct -> Lean structure of EdVerif.Impl
@@ -83,19 +85,57 @@ type fval struct {
 	leafs map[string]string
 	ty    types.Type
 	elems []fval // tuple; slice of pointers (variadic checkInitialized)
+	conc  bool   // term is the integer / boolean constant n
+	n     int64
+	// a condition that tests an Option-valued let (`err != nil` after a fallible setter)
+	optVar, optOld string
+	optPlace       fplace
+	optNeg         bool // the condition is "is some" rather than "is none"
 }
 
 type ftr struct {
 	c      *ssaCtx
 	f      *ssa.Function
 	store  map[string]fval // leaf place -> value (term or ptr)
-	lets   []string
+	lets   []string        // output so far (lets, and the text of completed branches)
 	nlet   int
 	vals   map[ssa.Value]fval
 	nloc   int
 	guards []string
 	err    string
 	done   map[string]*fsig
+	alias  []int
+	rty    string // Lean type of the result (all returns must agree)
+	steps  int
+	used   map[string]bool // translated callees (Lean names incl. aliasing suffix) this definition calls
+}
+
+type fsnap struct {
+	store  map[string]fval
+	vals   map[ssa.Value]fval
+	nloc   int
+	guards []string
+}
+
+func (t *ftr) snapshot() fsnap {
+	s := fsnap{store: map[string]fval{}, vals: map[ssa.Value]fval{}, nloc: t.nloc, guards: append([]string(nil), t.guards...)}
+	for k, v := range t.store {
+		s.store[k] = v
+	}
+	for k, v := range t.vals {
+		s.vals[k] = v
+	}
+	return s
+}
+
+func (t *ftr) restore(s fsnap) {
+	t.store, t.vals, t.nloc, t.guards = map[string]fval{}, map[ssa.Value]fval{}, s.nloc, append([]string(nil), s.guards...)
+	for k, v := range s.store {
+		t.store[k] = v
+	}
+	for k, v := range s.vals {
+		t.vals[k] = v
+	}
 }
 
 type fsig struct {
@@ -168,6 +208,9 @@ func (t *ftr) leanTypeOf(ty types.Type) string {
 	}
 	if b, ok := ty.Underlying().(*types.Basic); ok && b.Info()&types.IsInteger != 0 {
 		return "Nat"
+	}
+	if b, ok := ty.Underlying().(*types.Basic); ok && b.Info()&types.IsBoolean != 0 {
+		return "Bool"
 	}
 	if a, ok := ty.Underlying().(*types.Array); ok {
 		if b, ok := a.Elem().Underlying().(*types.Basic); ok && b.Kind() == types.Uint8 {
@@ -276,7 +319,18 @@ func (t *ftr) value(v ssa.Value) fval {
 			return fval{kind: "term", term: "nil", ty: x.Type()}
 		}
 		if x.Value.Kind() == constant.Int {
-			return fval{kind: "term", term: constant.ToInt(x.Value).ExactString(), ty: x.Type()}
+			n, _ := constant.Int64Val(constant.ToInt(x.Value))
+			return fval{kind: "term", term: constant.ToInt(x.Value).ExactString(), ty: x.Type(), conc: true, n: n}
+		}
+		if x.Value.Kind() == constant.Bool {
+			b := int64(0)
+			if constant.BoolVal(x.Value) {
+				b = 1
+			}
+			return fval{kind: "term", term: fmt.Sprint(constant.BoolVal(x.Value)), ty: x.Type(), conc: true, n: b}
+		}
+		if x.Value.Kind() == constant.String {
+			return fval{kind: "term", term: "\"\"", ty: x.Type()}
 		}
 	case *ssa.Global:
 		name := t.c.short(x.RelString(nil))
@@ -331,6 +385,12 @@ func (t *ftr) argTerm(v fval) string {
 
 func (t *ftr) call(in *ssa.Call) fval {
 	cc := in.Call
+	if bi, ok := cc.Value.(*ssa.Builtin); ok && bi.Name() == "len" && len(cc.Args) == 1 {
+		a := t.value(cc.Args[0])
+		if a.kind == "term" {
+			return fval{kind: "term", term: a.term + ".size", ty: in.Type()}
+		}
+	}
 	fn, ok := cc.Value.(*ssa.Function)
 	if !ok || cc.IsInvoke() {
 		t.fail("dynamic call")
@@ -381,6 +441,17 @@ func (t *ftr) call(in *ssa.Call) fval {
 		}
 	}
 	switch name {
+	case "errors.New":
+		return fval{kind: "err", ty: in.Type()}
+	case "(*field.Element).SetBytes", "(*field.Element).SetWideBytes":
+		// fallible setter: `(v, nil)` with v set, or `(nil, err)` with v unchanged
+		if len(args) == 2 && args[0].kind == "ptr" && args[1].kind == "term" {
+			lf := map[string]string{"(*field.Element).SetBytes": "Fe.setBytes", "(*field.Element).SetWideBytes": "Fe.setWideBytes"}[name]
+			o := t.let(lf + " " + args[1].term)
+			old := t.pack(args[0].place)
+			t.unpack(args[0].place, "("+o+".getD "+old+")")
+			return fval{kind: "tuple", elems: []fval{args[0], {kind: "opterr", optVar: o, optOld: old, optPlace: args[0].place}}}
+		}
 	case "(*field.Element).Zero", "(*field.Element).One":
 		t.unpack(args[0].place, map[string]string{"(*field.Element).Zero": "Fe.zero", "(*field.Element).One": "Fe.one"}[name])
 		return args[0]
@@ -391,6 +462,10 @@ func (t *ftr) call(in *ssa.Call) fval {
 		return fval{kind: "tuple"}
 	case "(*field.Element).SqrtRatio":
 		if sg, ok := t.done[name]; ok {
+			if t.used == nil {
+				t.used = map[string]bool{}
+			}
+			t.used[sg.lean] = true
 			pr := t.let(fmt.Sprintf("%s %s %s %s", sg.lean, t.argTerm(args[0]), t.argTerm(args[1]), t.argTerm(args[2])))
 			t.unpack(args[0].place, pr+".1")
 			return fval{kind: "tuple", elems: []fval{args[0], {kind: "term", term: pr + ".2"}}}
@@ -422,6 +497,10 @@ func (t *ftr) call(in *ssa.Call) fval {
 		if !ident {
 			callee += "__al" + sfx
 		}
+		if t.used == nil {
+			t.used = map[string]bool{}
+		}
+		t.used[callee] = true
 		r := t.let(callee + " " + strings.Join(as, " "))
 		if _, isPtr := in.Type().Underlying().(*types.Pointer); isPtr && len(args) > 0 && args[0].kind == "ptr" {
 			// method returning its receiver: the result is the receiver's new value
@@ -457,17 +536,28 @@ func (t *ftr) instr(in ssa.Instruction) (ret *fval) {
 		t.vals[x] = fval{kind: "ptr", place: fplace{b.place.key + "." + fl.Name(), fl.Type()}, ty: x.Type()}
 	case *ssa.IndexAddr:
 		b := t.value(x.X)
-		c, ok := x.Index.(*ssa.Const)
-		if b.kind != "ptr" || !ok {
-			t.fail("IndexAddr with a non-constant index or base")
+		ix := t.value(x.Index)
+		if !ix.conc {
+			t.fail("IndexAddr with a non-constant index")
+			return
+		}
+		if b.kind == "term" {
+			// element of a byte-slice parameter
+			if _, ok := b.ty.Underlying().(*types.Slice); ok {
+				t.vals[x] = fval{kind: "elem", term: fmt.Sprintf("%s[%d]!", b.term, ix.n), ty: x.Type()}
+				return
+			}
+		}
+		if b.kind != "ptr" {
+			t.fail("IndexAddr with base of kind %s", b.kind)
 			return
 		}
 		arr, ok := b.place.ty.Underlying().(*types.Array)
-		if !ok {
-			t.fail("IndexAddr into a non-array")
+		if !ok || ix.n < 0 || ix.n >= arr.Len() {
+			t.fail("IndexAddr into a non-array or out of range")
 			return
 		}
-		t.vals[x] = fval{kind: "ptr", place: fplace{fmt.Sprintf("%s[%d]", b.place.key, c.Int64()), arr.Elem()}, ty: x.Type()}
+		t.vals[x] = fval{kind: "ptr", place: fplace{fmt.Sprintf("%s[%d]", b.place.key, ix.n), arr.Elem()}, ty: x.Type()}
 	case *ssa.Slice:
 		b := t.value(x.X)
 		arr, ok := b.place.ty.Underlying().(*types.Array)
@@ -486,12 +576,25 @@ func (t *ftr) instr(in ssa.Instruction) (ret *fval) {
 		}
 		t.vals[x] = v
 	case *ssa.UnOp:
+		if x.Op == token.NOT {
+			a := t.value(x.X)
+			if a.conc {
+				a.n = 1 - a.n
+				a.term = fmt.Sprint(a.n == 1)
+				t.vals[x] = a
+			} else {
+				t.vals[x] = fval{kind: "term", term: "(!" + a.term + ")", ty: x.Type()}
+			}
+			return
+		}
 		if x.Op != token.MUL {
 			t.fail("unary %s", x.Op)
 			return
 		}
 		b := t.value(x.X)
 		switch b.kind {
+		case "elem":
+			t.vals[x] = fval{kind: "term", term: b.term, ty: x.Type()}
 		case "ptrptr":
 			t.vals[x] = fval{kind: "ptr", place: b.place, ty: x.Type()}
 		case "ptr":
@@ -525,13 +628,107 @@ func (t *ftr) instr(in ssa.Instruction) (ret *fval) {
 		}
 		t.vals[x] = b.elems[x.Index]
 	case *ssa.BinOp:
-		op, ok := fBinops[x.Op]
 		a, b := t.value(x.X), t.value(x.Y)
-		if !ok || a.kind != "term" || b.kind != "term" {
-			t.fail("binary %s", x.Op)
+		// `err != nil` / `err == nil` after a fallible setter
+		if (x.Op == token.NEQ || x.Op == token.EQL) && (a.optVar != "" || b.optVar != "") {
+			o := a
+			if o.optVar == "" {
+				o = b
+			}
+			o.optNeg = x.Op == token.EQL
+			o.kind, o.term = "term", "("+o.optVar+".isNone)"
+			t.vals[x] = o
 			return
 		}
-		t.vals[x] = fval{kind: "term", term: t.let(fmt.Sprintf("%s %s %s", a.term, op, b.term)), ty: x.Type()}
+		if a.kind != "term" || b.kind != "term" {
+			t.fail("binary %s on %s/%s", x.Op, a.kind, b.kind)
+			return
+		}
+		if a.conc && b.conc {
+			var r int64
+			isBool := false
+			switch x.Op {
+			case token.ADD:
+				r = a.n + b.n
+			case token.SUB:
+				r = a.n - b.n
+			case token.MUL:
+				r = a.n * b.n
+			case token.LSS:
+				isBool = true
+				if a.n < b.n {
+					r = 1
+				}
+			case token.LEQ:
+				isBool = true
+				if a.n <= b.n {
+					r = 1
+				}
+			case token.GTR:
+				isBool = true
+				if a.n > b.n {
+					r = 1
+				}
+			case token.GEQ:
+				isBool = true
+				if a.n >= b.n {
+					r = 1
+				}
+			case token.EQL:
+				isBool = true
+				if a.n == b.n {
+					r = 1
+				}
+			case token.NEQ:
+				isBool = true
+				if a.n != b.n {
+					r = 1
+				}
+			default:
+				t.fail("constant folding of %s", x.Op)
+				return
+			}
+			tm := fmt.Sprint(r)
+			if isBool {
+				tm = fmt.Sprint(r == 1)
+			}
+			if r < 0 {
+				t.fail("negative constant")
+			}
+			t.vals[x] = fval{kind: "term", term: tm, ty: x.Type(), conc: true, n: r}
+			return
+		}
+		switch x.Op {
+		case token.EQL:
+			t.vals[x] = fval{kind: "term", term: fmt.Sprintf("(%s == %s)", a.term, b.term), ty: x.Type()}
+		case token.NEQ:
+			t.vals[x] = fval{kind: "term", term: fmt.Sprintf("(%s != %s)", a.term, b.term), ty: x.Type()}
+		case token.SHR:
+			if bits, signed := intBits(x.X.Type()); signed || bits == 0 {
+				t.fail("shift of a signed value")
+				return
+			}
+			t.vals[x] = fval{kind: "term", term: fmt.Sprintf("(%s >>> %s)", a.term, b.term), ty: x.Type()}
+		default:
+			op, ok := fBinops[x.Op]
+			if !ok {
+				t.fail("binary %s on symbolic integers", x.Op)
+				return
+			}
+			t.vals[x] = fval{kind: "term", term: t.let(fmt.Sprintf("%s %s %s", a.term, op, b.term)), ty: x.Type()}
+		}
+	case *ssa.Convert:
+		a := t.value(x.X)
+		fb, fs := intBits(x.X.Type())
+		tb, _ := intBits(x.Type())
+		if a.kind != "term" || fb == 0 || tb == 0 || (!a.conc && (fs || tb < fb)) {
+			t.fail("conversion %s -> %s", x.X.Type(), x.Type())
+			return
+		}
+		a.ty = x.Type()
+		t.vals[x] = a
+	case *ssa.ChangeType:
+		t.vals[x] = t.value(x.X)
 	case *ssa.Return:
 		switch len(x.Results) {
 		case 0:
@@ -550,6 +747,170 @@ func (t *ftr) instr(in ssa.Instruction) (ret *fval) {
 		t.fail("instruction %T", in)
 	}
 	return nil
+}
+
+// the result expression at a `Return`, and its Lean type
+func (t *ftr) retExpr(ret fval) (string, string) {
+	f := t.f
+	// arguments that do not share storage with the receiver must come out as they went in
+	hasRecv := f.Signature.Recv() != nil
+	for i, p := range f.Params {
+		if hasRecv && (i == 0 || t.alias[i] == t.alias[0]) {
+			continue
+		}
+		if pt, ok := p.Type().Underlying().(*types.Pointer); ok {
+			pl := fplace{fmt.Sprintf("p%d", t.alias[i]), pt.Elem()}
+			for _, l := range t.leaves(pl.ty) {
+				lp := strings.ReplaceAll(l.path, "[", ".get ")
+				if v := t.store[pl.key+l.path]; v.kind != "term" || v.term != fmt.Sprintf("a%d", t.alias[i])+lp {
+					t.fail("argument %d is written", i)
+				}
+			}
+		}
+	}
+	switch ret.kind {
+	case "ptr":
+		return t.pack(ret.place), t.leanTypeOf(ret.place.ty)
+	case "term":
+		return ret.term, t.leanTypeOf(ret.ty)
+	case "tuple":
+		if len(ret.elems) == 0 && len(f.Params) > 0 {
+			// procedures (Zero, Select, CondNeg, ...): the new value of the receiver
+			pl := t.vals[f.Params[0]].place
+			return t.pack(pl), t.leanTypeOf(pl.ty)
+		}
+		if len(ret.elems) == 2 && ret.elems[0].kind == "ptr" && ret.elems[1].kind == "term" && ret.elems[1].term != "nil" {
+			return "(" + t.pack(ret.elems[0].place) + ", " + ret.elems[1].term + ")", t.leanTypeOf(ret.elems[0].place.ty) + " × Nat"
+		}
+		// (pointer, error): `(returned value or none, final value of the receiver)`
+		if len(ret.elems) == 2 && len(f.Params) > 0 {
+			rp, isPtr := f.Params[0].Type().Underlying().(*types.Pointer)
+			if isPtr {
+				recv := t.pack(t.vals[f.Params[0]].place)
+				ty := t.leanTypeOf(rp.Elem())
+				p, e := ret.elems[0], ret.elems[1]
+				if p.kind == "term" && p.term == "nil" && e.kind == "err" {
+					return "((none : Option " + ty + "), " + recv + ")", "Option " + ty + " × " + ty
+				}
+				if p.kind == "ptr" && e.kind == "term" && e.term == "nil" {
+					return "(some " + t.pack(p.place) + ", " + recv + ")", "Option " + ty + " × " + ty
+				}
+			}
+		}
+	}
+	t.fail("unsupported result shape")
+	return "default", "Unit"
+}
+
+// execute from block b (entered from pred) to the function's exits; branches on symbolic conditions fork
+func (t *ftr) run(b, pred *ssa.BasicBlock) {
+	for {
+		if t.err != "" {
+			return
+		}
+		// phis: parallel assignment from the edge of `pred`
+		var phiVals []fval
+		var phis []*ssa.Phi
+		for _, in := range b.Instrs {
+			ph, ok := in.(*ssa.Phi)
+			if !ok {
+				break
+			}
+			idx := -1
+			for i, q := range b.Preds {
+				if q == pred {
+					idx = i
+				}
+			}
+			if idx < 0 {
+				t.fail("phi without predecessor")
+				return
+			}
+			phis = append(phis, ph)
+			phiVals = append(phiVals, t.value(ph.Edges[idx]))
+		}
+		for i, ph := range phis {
+			t.vals[ph] = phiVals[i]
+		}
+		for _, in := range b.Instrs[len(phis):] {
+			t.steps++
+			if t.steps > 200000 {
+				t.fail("too many steps (loop without a constant bound?)")
+				return
+			}
+			switch x := in.(type) {
+			case *ssa.Jump:
+				pred, b = b, b.Succs[0]
+			case *ssa.If:
+				c := t.value(x.Cond)
+				if c.kind != "term" {
+					t.fail("branch on a %s", c.kind)
+					return
+				}
+				if c.conc {
+					if c.n == 1 {
+						pred, b = b, b.Succs[0]
+					} else {
+						pred, b = b, b.Succs[1]
+					}
+					break
+				}
+				snap := t.snapshot()
+				if c.optVar != "" {
+					// test of an Option-valued let: a `match`, the receiver place refined in each arm
+					noneSucc, someSucc := b.Succs[0], b.Succs[1]
+					if c.optNeg {
+						noneSucc, someSucc = someSucc, noneSucc
+					}
+					t.lets = append(t.lets, fmt.Sprintf("  match %s with", c.optVar), "  | none => (")
+					t.unpack(c.optPlace, c.optOld)
+					t.run(noneSucc, b)
+					y := fmt.Sprintf("y%d", t.nlet)
+					t.nlet++
+					t.lets = append(t.lets, "  )", fmt.Sprintf("  | some %s => (", y))
+					t.restore(snap)
+					t.unpack(c.optPlace, y)
+					t.run(someSucc, b)
+					t.lets = append(t.lets, "  )")
+					return
+				}
+				t.lets = append(t.lets, fmt.Sprintf("  if %s then (", c.term))
+				t.run(b.Succs[0], b)
+				t.lets = append(t.lets, "  ) else (")
+				t.restore(snap)
+				t.run(b.Succs[1], b)
+				t.lets = append(t.lets, "  )")
+				return
+			case *ssa.Return:
+				var rv fval
+				switch len(x.Results) {
+				case 0:
+					rv = fval{kind: "tuple"}
+				case 1:
+					rv = t.value(x.Results[0])
+				default:
+					rv = fval{kind: "tuple"}
+					for _, r := range x.Results {
+						rv.elems = append(rv.elems, t.value(r))
+					}
+				}
+				body, rty := t.retExpr(rv)
+				if t.rty != "" && t.rty != rty {
+					t.fail("returns of different shapes (%s / %s)", t.rty, rty)
+				}
+				t.rty = rty
+				t.lets = append(t.lets, "  "+body)
+				return
+			default:
+				t.instr(in)
+				if t.err != "" {
+					return
+				}
+				continue
+			}
+			break // a Jump / resolved If: continue with the new block
+		}
+	}
 }
 
 func leanIdent(s string) string {
@@ -589,13 +950,9 @@ func translateFormulas(repo string) (string, string, []string) {
 			problems = append(problems, name+": no such function")
 			continue
 		}
-		if len(f.Blocks) != 1 {
-			problems = append(problems, fmt.Sprintf("%s: %d basic blocks (only straight-line functions are translated)", name, len(f.Blocks)))
-			continue
-		}
 		ln := leanIdent(name)
 		for _, alias := range aliasPatterns(f) {
-			def, sig, guards, err := translateOne(c, f, name, alias, done)
+			def, sig, guards, err, used := translateOne(c, f, name, alias, done)
 			if err != "" {
 				problems = append(problems, fmt.Sprintf("%s (aliasing %v): %s", name, alias, err))
 				continue
@@ -625,7 +982,16 @@ func translateFormulas(repo string) (string, string, []string) {
 				rs = append(rs, fmt.Sprintf("a%d", alias[i]))
 			}
 			tn := "tie_" + dn
-			fmt.Fprintf(&ties, "theorem %s %s :\n    Formulas.%s %s = FormulaSpec.%s %s := rfl\n\n", tn, strings.Join(bs, " "), dn, strings.Join(as, " "), ln, strings.Join(rs, " "))
+			proof := "rfl"
+			if len(used) > 0 {
+				var ts []string
+				for _, u := range used {
+					ts = append(ts, "tie_"+u)
+				}
+				// callees are replaced by their specifications (their own ties) before the definitional check
+				proof = fmt.Sprintf("by\n  first\n  | (unfold Formulas.%s; simp only [%s]; rfl)\n  | rfl", dn, strings.Join(ts, ", "))
+			}
+			fmt.Fprintf(&ties, "theorem %s %s :\n    Formulas.%s %s = FormulaSpec.%s %s := %s\n\n", tn, strings.Join(bs, " "), dn, strings.Join(as, " "), ln, strings.Join(rs, " "), proof)
 			tieNames = append(tieNames, tn)
 		}
 	}
@@ -668,7 +1034,7 @@ func aliasPatterns(f *ssa.Function) [][]int {
 	return res
 }
 
-func translateOne(c *ssaCtx, f *ssa.Function, name string, alias []int, done map[string]*fsig) (string, *fsig, []string, string) {
+func translateOne(c *ssaCtx, f *ssa.Function, name string, alias []int, done map[string]*fsig) (string, *fsig, []string, string, []string) {
 	t := &ftr{c: c, f: f, store: map[string]fval{}, vals: map[ssa.Value]fval{}, done: done}
 	var params, ptys []string
 	for i, p := range f.Params {
@@ -686,59 +1052,19 @@ func translateOne(c *ssaCtx, f *ssa.Function, name string, alias []int, done map
 		}
 		params = append(params, fmt.Sprintf("(%s : %s)", pn, ptys[i]))
 	}
-	var ret *fval
-	for _, in := range f.Blocks[0].Instrs {
-		if r := t.instr(in); r != nil {
-			ret = r
-		}
-		if t.err != "" {
-			break
-		}
-	}
-	var body, rty string
-	if t.err == "" && ret != nil {
-		switch ret.kind {
-		case "ptr":
-			body, rty = t.pack(ret.place), t.leanTypeOf(ret.place.ty)
-		case "term":
-			body, rty = ret.term, t.leanTypeOf(ret.ty)
-		case "tuple":
-			if len(ret.elems) == 0 && len(f.Params) > 0 {
-				// procedures (Zero, Select, CondNeg, ...): the new value of the receiver
-				pl := t.vals[f.Params[0]].place
-				body, rty = t.pack(pl), t.leanTypeOf(pl.ty)
-			} else if len(ret.elems) == 2 && ret.elems[0].kind == "ptr" && ret.elems[1].kind == "term" {
-				body = "(" + t.pack(ret.elems[0].place) + ", " + ret.elems[1].term + ")"
-				rty = t.leanTypeOf(ret.elems[0].place.ty) + " × Nat"
-			} else {
-				t.fail("unsupported result shape")
-			}
-		default:
-			t.fail("unsupported result kind %s", ret.kind)
-		}
-	}
-	// arguments that do not share storage with the receiver must come out as they went in
-	if t.err == "" {
-		for i, p := range f.Params {
-			if alias[i] == alias[0] {
-				continue
-			}
-			if pt, ok := p.Type().Underlying().(*types.Pointer); ok {
-				pl := fplace{fmt.Sprintf("p%d", alias[i]), pt.Elem()}
-				for _, l := range t.leaves(pl.ty) {
-					lp := strings.ReplaceAll(l.path, "[", ".get ")
-					if v := t.store[pl.key+l.path]; v.kind != "term" || v.term != fmt.Sprintf("a%d", alias[i])+lp {
-						t.fail("argument %d is written", i)
-					}
-				}
-			}
-		}
-	}
+	t.alias = alias
+	t.run(f.Blocks[0], nil)
 	if t.err != "" {
-		return "", nil, nil, t.err
+		return "", nil, nil, t.err, nil
 	}
-	def := fmt.Sprintf("/-- %s, parameters sharing storage: %v -/\ndef @NAME@ %s : %s :=\n%s\n  %s\n\n", name, alias, strings.Join(params, " "), rty, strings.Join(t.lets, "\n"), body)
-	return def, &fsig{lean: leanIdent(name), params: ptys, ret: rty}, t.guards, ""
+	rty := t.rty
+	var used []string
+	for u := range t.used {
+		used = append(used, u)
+	}
+	sort.Strings(used)
+	def := fmt.Sprintf("/-- %s, parameters sharing storage: %v -/\ndef @NAME@ %s : %s :=\n%s\n\n", name, alias, strings.Join(params, " "), rty, strings.Join(t.lets, "\n"))
+	return def, &fsig{lean: leanIdent(name), params: ptys, ret: rty}, t.guards, "", used
 }
 
 func quoteAll(xs []string) string {
